@@ -33,12 +33,18 @@ JSON
   if ! go build $MODFLAG -tags verif -overlay "$WORK/overlay.json" -o "$ROOT/bin/check" ./cmd/check >"$WORK/build.log" 2>&1; then
     cat "$WORK/build.log" >&2; echo "HARNESS-ERROR: build failed" >&2; exit 2
   fi
+  if [ "${1:-}" = "C13" ]; then
+    # free-running bodies under the race detector (complement of the cooperative scheduler)
+    if ! go build $MODFLAG -race -tags verif -overlay "$WORK/overlay.json" -o "$ROOT/bin/racepass" ./cmd/racepass >"$WORK/build-race.log" 2>&1; then
+      cat "$WORK/build-race.log" >&2; echo "HARNESS-ERROR: race build failed" >&2; exit 2
+    fi
+  fi
   flock -u 9
 }
 
 case "${1:-}" in
-  build) build; exit 0;;
+  build) build C13; exit 0;;
   "") echo "usage: run.sh <Cnn> [quick|thorough] | replay <file> | build" >&2; exit 2;;
 esac
-build
+build "$@"
 exec "$ROOT/bin/check" "$@"
